@@ -17,6 +17,10 @@ Case kinds
           the model: a mismatch is an infrastructure error, not a violation).
   markdown frames with any (wire-encodable) text through DataFrame.markdown: never-fails oracle, and the
           whole text compared with Model/Display.lean `markdownLines` (cells arrive as str(v)).
+  td      one numpy.timedelta64 (every unit numpy has and none, steps, the whole 64-bit range of counts) through
+          ascii_table in a wide column: never-fails oracle; the branch of numpy_type_mapper as extracted
+          (Model/DisplayTd.lean `mapTd`) against what the unit means, and the interval shown against the double
+          quotient of the extracted numerator / denominator.
   colorize strings made of colour tokens, damaged tokens, escapes and text through `colorizer`
           against the model's sequential `replaceAll` over the extracted COLORS table.
 
@@ -65,7 +69,11 @@ def mk(spec):
     if k == "timedelta":
         return datetime.timedelta(days=spec[1][0], seconds=spec[1][1], microseconds=spec[1][2])
     if k == "td64":
-        return numpy.timedelta64(spec[1][0], spec[1][1])
+        n, unit = spec[1][0], spec[1][1]
+        step = spec[1][2] if len(spec[1]) > 2 else 1
+        if unit == "generic":
+            return numpy.timedelta64(n)
+        return numpy.timedelta64(n, unit) if step == 1 else numpy.timedelta64(n, (unit, step))
     if k == "dt64":
         return numpy.datetime64(spec[1])
     if k == "mdn":
@@ -135,10 +143,52 @@ def interval_parts(days, months, seconds):
     return parts
 
 
+# what numpy's timedelta64 units mean (the reference): months per tick; (seconds, ticks per second)
+TD_MONTHS = {"Y": 12, "M": 1}
+TD_SECONDS = {"W": (604800, 1), "D": (86400, 1), "h": (3600, 1), "m": (60, 1), "s": (1, 1), "generic": (1, 1), "ms": (1, 10**3),
+              "us": (1, 10**6), "ns": (1, 10**9), "ps": (1, 10**12), "fs": (1, 10**15), "as": (1, 10**18)}
+TD_UNITS = ["Y", "M", "W", "D", "h", "m", "s", "ms", "us", "ns", "ps", "fs", "as", "generic"]
+
+
+def td64_fields(v):
+    """(unit, step, raw 64-bit count) of a numpy.timedelta64 that is not NaT."""
+    import numpy
+
+    unit, step = numpy.datetime_data(v.dtype)[:2]
+    return unit, int(step), int(v.astype("int64"))
+
+
+def td64_quotient_parts(n, d, day_floor=86400, day_mod=86400):
+    """Text pieces of the interval whose length is the double quotient float(n) / d seconds (display.py: the
+    timedelta branch of numpy_type_mapper, then the `hasattr(value, "days")` branch): double arithmetic is a parameter."""
+    seconds = float(n) / d
+    days = int(seconds // day_floor)
+    nanos = (seconds % day_mod) * 1e9
+    return interval_parts(days, 0, nanos / 1e9)
+
+
+def td64_parts(unit, step, raw):
+    """The pieces for a value of a fixed unit: the double quotient numpy forms (both sides in their common unit)."""
+    import math
+
+    if unit in TD_MONTHS:
+        return []
+    length, per = TD_SECONDS[unit]
+    g = math.gcd(step * length, per)
+    return td64_quotient_parts(raw * (step * length // g), per // g)
+
+
 def tag_cell(v):
     """Python value -> the model's cell kind (only for kinds the render correspondence sends)."""
     import math
 
+    import numpy
+
+    if isinstance(v, numpy.timedelta64):
+        if numpy.isnat(v):
+            return ["null"]
+        unit, step, raw = td64_fields(v)
+        return ["td64", unit, step, raw, td64_parts(unit, step, raw) if unit in TD_SECONDS or unit in TD_MONTHS else [], len(str(v))]
     if v is None or (isinstance(v, float) and math.isnan(v)):
         return ["null"]
     if isinstance(v, bool):
@@ -309,6 +359,24 @@ def check_py_facts(ctx):
                     got = ("raises", type(e).__name__)
                 if got != ("py", m[1][1]):
                     bad.append(("conversion", name, m[1][2], got, m[1][1]))
+    # the unit names numpy.datetime_data can return (Model/DisplayTd.lean `numpyUnits`)
+    units = wire.dec_all(ctx.model.one("C18 tdunits")[3:])[0]
+    if sorted(units) != sorted(TD_UNITS):
+        bad.append(("numpyUnits", units))
+    for u in units:
+        try:
+            got = numpy.datetime_data((numpy.timedelta64(1) if u == "generic" else numpy.timedelta64(1, u)).dtype)[0]
+        except Exception as e:  # noqa
+            got = type(e).__name__
+        if got != u:
+            bad.append(("unit", u, got))
+    for u in ["B", "d", "H", "S", "min", "sec", "y", "w", "μs", "Ms", "cs", "ds", "das", "zs", "ys", "ks", "Q", "q", "C", "dec", "a", "at", "Ps"]:
+        try:
+            got = numpy.datetime_data(numpy.timedelta64(1, u).dtype)[0]
+        except Exception:  # noqa
+            continue
+        if got not in units:
+            bad.append(("numpy has a further unit", u, got))
     if bad:
         raise InfraError("Model/PyKinds.lean (facts about Python / numpy, a parameter) differs from the interpreter: %r" % bad[:8])
     ctx.hit("pyfacts-checked:%d-kinds" % (len(pyt) + len(npt)))
@@ -439,12 +507,15 @@ def spec_lines(n, limit, tt):
 
 
 def body_of(text, footer=False):
-    """Lines between the header separator and the bottom border, ANSI stripped."""
+    """Lines between the header separator and the bottom border, ANSI stripped.  Any shape of `text` is judged
+    (None = not a box table), never indexed blindly: the text comes from code that may have been changed."""
+    if not isinstance(text, str):
+        return None, []
     lines = [ANSI.sub("", l) for l in text.split("\n")]
     if footer:
         lines = lines[:-1]
     sep = [i for i, l in enumerate(lines) if l.startswith("╞")]
-    if not sep or not lines[-1].startswith("└"):
+    if not lines or not sep or not lines[-1].startswith("└"):
         return None, lines
     return lines[sep[0] + 1 : -1], lines
 
@@ -500,8 +571,18 @@ def values_clause(got, rows, maxcol):
     return None
 
 
+def safe_int(s):
+    """int(s) for a plain ASCII decimal text, else None (never raises: '²'.isdigit() is true, int('²') is not)."""
+    try:
+        return int(s) if isinstance(s, str) and s.isascii() and s.strip().lstrip("-").isdigit() and len(s) < 4000 else None
+    except ValueError:
+        return None
+
+
 def width_clause(text, dw, footer=False):
     """Printed width of all box lines equal and within the display width (ANSI escapes stripped)."""
+    if not isinstance(text, str):
+        return "rendering did not return text"
     lines = [ANSI.sub("", l) for l in text.split("\n")]
     if footer:
         lines = lines[:-1]
@@ -523,7 +604,8 @@ def _colors():
     try:
         from orso.display import COLORS
 
-        return dict(COLORS)
+        d = dict(COLORS)
+        return d if all(isinstance(k, str) and isinstance(v, str) for k, v in d.items()) else None
     except Exception:
         return None
 
@@ -568,6 +650,9 @@ def model_line(case):
         return "C18 decode " + wire.line(case["bytes"])
     if k in ("total", "seq"):
         return "echo N"
+    if k == "td":
+        unit, step, raw = td64_fields(mk(["td64", case["cell"]]))
+        return "C18 td64 " + wire.line(unit, step, raw)
     if k == "fmt":
         kd = kind_of(mk(case["cell"]))
         if kd is None:
@@ -596,6 +681,8 @@ def run_sel(case):
         text = call_render(c, rows, via, case.get("colorize", False))
     except Exception as e:  # noqa
         return None, "rendering raised %s" % type(e).__name__, repr(e)[:300]
+    if not isinstance(text, str):
+        return None, "rendering did not return text", repr(text)[:300]
     body, lines = body_of(text, footer=(via == "str"))
     if body is None:
         return None, "the rendering is not a box table", text
@@ -645,7 +732,10 @@ def run_seq(case):
 
     n = case["n"]
     cur = [(1000 + i,) for i in range(n)]
-    df = DataFrame(rows=(r for r in cur), schema=["c0"]) if case.get("lazy") else DataFrame(rows=list(cur), schema=["c0"])
+    try:
+        df = DataFrame(rows=(r for r in cur), schema=["c0"]) if case.get("lazy") else DataFrame(rows=list(cur), schema=["c0"])
+    except Exception as e:  # noqa
+        return "building the frame raised %s" % type(e).__name__, [["DataFrame", repr(e)[:200]]]
     lazy, used, trace = bool(case.get("lazy")), False, []
     for step, op in enumerate(case["ops"]):
         try:
@@ -678,6 +768,8 @@ def run_seq(case):
             lazy = False  # these materialise the frame before showing it
         elif lazy and op != "repr":
             used = True
+        if not isinstance(text, str):
+            return "step %d (%s): rendering did not return text" % (step, op), trace + [[op, repr(text)[:200]]]
         if op in ("markdown", "repr", "notebook"):
             trace.append([op, "ok"])
             if op == "repr" and text != "<orso.dataframe>":
@@ -689,7 +781,7 @@ def run_seq(case):
         body, lines = body_of(text, footer=(op == "str"))
         if body is None:
             return "step %d (%s): the rendering is not a box table" % (step, op), trace + [[op, text]]
-        got = [[p[0], p[1], (int(p[2][0]) - 1000) % (SEQ_BIG - 1000)] if p[0] == "d" and len(p[2]) == 1 and p[2][0].isdigit() else p
+        got = [[p[0], p[1], (safe_int(p[2][0]) - 1000) % (SEQ_BIG - 1000)] if p[0] == "d" and len(p[2]) == 1 and safe_int(p[2][0]) is not None else p
                for p in parse_labels(body)]
         limit = 10 if op == "str" else case["limit"]
         tt = True if op != "ascii" else case.get("tt", True)
@@ -703,7 +795,11 @@ def run_seq(case):
                 return "step %d (%s): %s" % (step, op, cl), trace + [[op, text]]
         if lazy:
             continue
-        if [r[0] for r in df._rows] != [r[0] for r in cur]:
+        try:
+            held = [r[0] for r in df._rows]
+        except Exception as e:  # noqa
+            held = "unreadable: %s" % type(e).__name__
+        if held != [r[0] for r in cur]:
             return "step %d (%s): rendering changed the rows of an eager frame" % (step, op), trace
     return None, trace
 
@@ -726,6 +822,9 @@ def run_render(case):
     wide = case["dw"] >= 4000
     for key in ("off", "on"):
         text = out[key]
+        if not isinstance(text, str):
+            out["clause"] = "rendering did not return text"
+            return out
         if ascii_content:
             cl = width_clause(text, case["dw"])
             if cl:
@@ -783,8 +882,10 @@ def run_fmt(case):
                            colorize=True, show_types=False)
     except Exception as e:  # noqa
         return "rendering raised %s" % type(e).__name__, repr(e)[:200]
+    if not isinstance(text, str):
+        return "rendering did not return text", repr(text)[:200]
     lines = text.split("\n")
-    if len(lines) != 5 or not lines[3].startswith("│"):
+    if len(lines) != 5 or not lines[3].startswith("│") or lines[3].count("│") < 3:
         return "the rendering is not a box table", text
     cell = lines[3].split("│", 2)[2][1:]
     best = ""
@@ -792,6 +893,25 @@ def run_fmt(case):
         if cell.startswith(rep) and len(rep) > len(best):
             best = rep
     return None, best
+
+
+def run_td(case):
+    """One numpy.timedelta64 through ascii_table (1 x 1 frame, wide, colour off): (clause, text of the cell)."""
+    from orso import DataFrame
+    from orso.display import ascii_table
+
+    v = mk(["td64", case["cell"]])
+    try:
+        # the column is as wide as its name: wider than any interval text (the data width is that of str(value))
+        text = ascii_table(DataFrame(rows=[(v,)], schema=["c" * 64]), limit=1, display_width=5000, max_column_width=400, colorize=False)
+    except Exception as e:  # noqa
+        return "rendering raised %s" % type(e).__name__, repr(e)[:200]
+    if not isinstance(text, str):
+        return "rendering did not return text", repr(text)[:200]
+    lines = text.split("\n")
+    if len(lines) != 5 or not lines[3].startswith("│") or lines[3].count("│") < 3:
+        return "the rendering is not a box table", text
+    return None, lines[3].split("│")[2].strip()
 
 
 def run_total(case):
@@ -850,6 +970,11 @@ def valid_case(c):
         if k == "seq":
             return (isinstance(c["n"], int) and c["n"] >= 0 and isinstance(c["limit"], int) and c["limit"] >= 1
                     and all(o in SEQ_OPS for o in c["ops"]) and isinstance(c.get("tt", True), bool))
+        if k == "td":
+            v = mk(["td64", c["cell"]])
+            import numpy
+
+            return isinstance(v, numpy.timedelta64) and not numpy.isnat(v)
         if k == "fmt":
             mk(c["cell"])
             return isinstance(c.get("maxcol", 40), int) and c.get("maxcol", 40) >= 1
@@ -903,6 +1028,9 @@ def outcome(case):
         return cl, {"trace": trace if cl else None}
     if k == "fmt":
         cl, info = run_fmt(case)
+        return cl, {"detail": info if cl else None}
+    if k == "td":
+        cl, info = run_td(case)
         return cl, {"detail": info if cl else None}
     if k == "markdown":
         try:
@@ -1042,6 +1170,33 @@ def evaluate(ctx, cases):
                 ctx.disagree(c, rep, m, "the extracted if-chain of type_formatter raises / reads a missing attribute where the implementation renders")
             elif colors.get(disp[2], "") != rep:
                 ctx.disagree(c, rep, m, "the cell is formatted by another branch of type_formatter than the extracted chain selects")
+        elif k == "td":
+            clause, shown = run_td(c)
+            unit, step, raw = td64_fields(mk(["td64", c["cell"]]))
+            ctx.case(c, raw != 0)
+            scale = step * (TD_MONTHS[unit] if unit in TD_MONTHS else TD_SECONDS.get(unit, (1, 1))[0])
+            ctx.hit("td:unit:%s:%s" % (unit, "step" if step != 1 else "plain"))
+            ctx.hit("td:count:%s" % ("fits-64-bits-in-seconds-or-months" if abs(raw * scale) < 2**63 and unit != "as" else "beyond-numpy's-64-bit-conversion"))
+            ctx.hit("td:count:%s" % ("below-2^53" if abs(raw) <= 2**53 else "above-2^53"))
+            if clause is not None:
+                report_fail(ctx, c, clause, model=m)
+                continue
+            # the branch as extracted from the source, against what the unit means (the statement's reference)
+            if m[0] == "err":
+                ctx.disagree(c, shown, m, "the extracted timedelta branch raises where the implementation renders")
+            elif m[0] == "months":
+                if unit not in TD_MONTHS or m[1] != raw * step * TD_MONTHS[unit]:
+                    ctx.disagree(c, shown, m, "the extracted month count is not raw * step * months-per-tick")
+                elif " ".join(interval_parts(0, m[1], 0.0)) != shown:
+                    ctx.disagree(c, shown, " ".join(interval_parts(0, m[1], 0.0)), "the interval shown is not the month count of the extracted branch")
+            else:
+                n_, d_ = m[1], m[2]
+                if unit not in TD_SECONDS or d_ <= 0 or n_ * TD_SECONDS[unit][1] != raw * step * TD_SECONDS[unit][0] * d_:
+                    ctx.disagree(c, shown, m, "the extracted quotient is not the length raw * step * seconds-per-tick")
+                else:
+                    want = " ".join(td64_quotient_parts(n_, d_, m[3], m[4]))
+                    if want != shown:
+                        ctx.disagree(c, shown, want, "the interval shown is not the double quotient of the extracted branch")
         elif k == "markdown":
             rows = [tuple(mk(x) for x in r) for r in c["rows"]]
             ctx.case(c, len(c["rows"]) >= 1 and len(c["names"]) >= 1)
@@ -1060,9 +1215,12 @@ def evaluate(ctx, cases):
             from orso.display import colorizer
 
             try:
-                got = colorizer(c["text"], c["on"], unescape=False)
-            except TypeError:
-                got = colorizer(c["text"], c["on"]) if "\\u0001" not in c["text"] else None
+                try:
+                    got = colorizer(c["text"], c["on"], unescape=False)
+                except TypeError:
+                    got = colorizer(c["text"], c["on"]) if "\\u0001" not in c["text"] else None
+            except Exception as e:  # noqa  (a colorizer that raises is judged, it does not stop the harness)
+                got = "colorizer raised %s" % type(e).__name__
             if got is not None and got != m[0]:
                 ctx.disagree(c, got, m[0], "colorizer differs from the model's sequential replace")
         elif k == "decode":
@@ -1144,6 +1302,8 @@ def gen_model_cell(rng, ctrl):
         return ["date", [rng.randint(1000, 9999), rng.randint(1, 12), rng.randint(1, 28)]]
     if k == 11:
         return ["datetime", [rng.randint(1000, 9999), rng.randint(1, 12), rng.randint(1, 28), rng.randint(0, 23), rng.randint(0, 59), rng.randint(0, 59), rng.choice([0, 0, 5, 999999])]]
+    if k == 12 and rng.random() < 0.4:
+        return gen_td64(rng, nat=0.0)
     if k == 12:
         if rng.random() < 0.35:
             return ["mdn", [rng.choice([0, 0, 1, 11, 12, 13, 25, -1, -13]), rng.choice([0, 0, 3, -3, 400]),
@@ -1158,6 +1318,33 @@ def gen_model_cell(rng, ctrl):
                        ["complex", [1.0, -2.0]], ["set", []]])
 
 
+def gen_td64(rng, nat=0.04):
+    """numpy.timedelta64 over every unit numpy has (and none), steps (`timedelta64[25s]`) and the whole 64-bit range of
+    counts: small, around 2^53 (where doubles stop being exact), powers of two, exactly at / one past the count whose
+    length in seconds (months) no longer fits 64 bits, the extremes."""
+    unit = rng.choice(TD_UNITS)
+    step = 1 if unit == "generic" or rng.random() < 0.7 else rng.choice([2, 3, 5, 7, 10, 25, 60, 125, 1000, 1024, 86400, 2**31 - 1])
+    scale = step * (TD_MONTHS[unit] if unit in TD_MONTHS else TD_SECONDS[unit][0])
+    r = rng.random()
+    if r < 0.2:
+        n = rng.randint(-(2**63) + 1, 2**63 - 1)
+    elif r < 0.35:
+        n = rng.choice([1, -1]) * 2 ** rng.randint(0, 62) + rng.randint(-2, 2)
+    elif r < 0.55:
+        n = rng.randint(-(10**6), 10**6)
+    elif r < 0.65:
+        n = rng.choice([1, -1]) * rng.randint(2**52, 2**54)
+    elif r < 0.8:
+        n = rng.choice([1, -1]) * ((2**63 - 1) // scale) + rng.choice([-1, 0, 1, 2])
+    else:
+        n = rng.choice([0, 1, -1, 2**63 - 1, -(2**63) + 1, 2**53, 2**53 + 1, -(2**53) - 1, 59, 60, 3599, 3600, 86399, 86400, 86401,
+                        10**9, 10**18, 10**18 + 1, 12, 13, -13])
+    n = max(-(2**63) + 1, min(2**63 - 1, n))
+    if rng.random() < nat:
+        n = "NaT"
+    return ["td64", [n, unit, step]]
+
+
 def gen_any_cell(rng, depth=1):
     """Every value kind the statement lists."""
     k = rng.randrange(30)
@@ -1170,6 +1357,8 @@ def gen_any_cell(rng, depth=1):
         return c
     if k == 16:
         return ["bytearray", gen_bytes(rng)]
+    if k == 17 and rng.random() < 0.8:
+        return gen_td64(rng)
     if k == 17:
         return ["td64", rng.choice([[0, "s"], [90061, "s"], [-5, "D"], [3, "M"], [-14, "M"], [2, "Y"], [7, "W"], [123456789, "ns"], [5, "us"],
                                      [10**15, "ms"], [1, "h"], [59, "m"], ["NaT", "ns"], ["NaT", "D"], [2**62, "ns"], [-(2**62), "us"], [10**12, "D"]])]
@@ -1325,6 +1514,9 @@ def gen_frame_case(rng, kind):
 EXOTIC = [
     ["dec", "sNaN"], ["dec", "-sNaN123"], ["dec", "NaN"], ["dec", "-Infinity"], ["dec", "1E+1000"], ["td64", ["NaT", "ns"]], ["td64", ["NaT", "M"]],
     ["td64", [5, "Y"]], ["td64", [-14, "M"]], ["td64", [10**6, "D"]], ["td64", [2**62, "ns"]], ["td64", [7, "W"]], ["dt64", "NaT"],
+    ["td64", [2**62, "W"]], ["td64", [2**63 - 1, "D"]], ["td64", [-(2**63) + 1, "h"]], ["td64", [2**62, "m"]], ["td64", [1, "as"]],
+    ["td64", [-(2**63) + 1, "as"]], ["td64", [2**62, "Y"]], ["td64", [2**62, "s", 25]], ["td64", [2**61, "Y", 3]], ["td64", [5, "generic"]],
+    ["td64", [2**63 - 1, "fs"]], ["td64", [2**53 + 1, "s"]], ["td64", [7, "ms", 7]], ["td64", [1, "as", 1000]], ["td64", [2**63 - 1, "M"]],
     ["dt64", "2020-02"], ["int", 10**4000], ["int", -(2**64)], ["str", "\ud800"], ["str", "a\ud800b\n\r\x1b[0m\x01OFFm"],
     ["str", "日本語한\U0001f600​́‮"], ["bytes", b"\xff\xfe\x00\n"], ["bytearray", b"\xed\xa0\x80"],
     ["list", [["list", [["int", 1]]], ["dict", [[["str", "k"], ["none"]]]], ["bytes", b"\xff"]]],
@@ -1337,6 +1529,11 @@ EXOTIC = [
     ["timedelta", [0, 0, 1]], ["time", [23, 59, 59, 999999]], ["date", [1, 1, 1]], ["datetime", [9999, 12, 31, 23, 59, 59, 999999]],
     ["float", 5e-324], ["float", -0.0], ["float", float("nan")], ["bool", False], ["none"], ["complex", [0.0, -1.0]],
 ]
+
+
+def gen_td_case(rng):
+    c = gen_td64(rng, nat=0.0)
+    return {"kind": "td", "cell": c[1]}
 
 
 def gen_fmt_case(rng):
@@ -1467,8 +1664,10 @@ def run(ctx):
     n_md, n_col = ctx.scale((500, 800), (6000, 10000))
     n_fmt = ctx.scale(1200, 15000)
     n_seq = ctx.scale(600, 8000)
+    n_td = ctx.scale(1500, 20000)
     rng = ctx.rng
     groups = [
+        [gen_td_case(rng) for _ in range(n_td)],
         [sel_random(rng) for _ in range(n_sel)],
         [{"kind": "decode", "bytes": gen_bytes(rng)} for _ in range(n_dec)],
         [gen_colorize_case(rng) for _ in range(n_col)],
@@ -1493,7 +1692,7 @@ def intensify(ctx):
             return
         evaluate(ctx, [gen_frame_case(rng, "render") for _ in range(300)] + [sel_random(rng) for _ in range(100)]
                  + [gen_frame_case(rng, "total") for _ in range(300)] + [gen_markdown_case(rng) for _ in range(100)]
-                 + [gen_fmt_case(rng) for _ in range(200)] + [gen_seq_case(rng) for _ in range(100)])
+                 + [gen_fmt_case(rng) for _ in range(200)] + [gen_seq_case(rng) for _ in range(100)] + [gen_td_case(rng) for _ in range(200)])
 
 
 def replay(ctx, case):
